@@ -74,6 +74,27 @@ func init() {
 					top.Kust["sortOptions"] = Obj{"order": "fifo"}
 				}
 			}
+			if r.Intn(6) == 0 {
+				// a resource that has no name (only `generateName`, an empty name, a null name): such a build fails, or — if it
+				// ever succeeds — still emits nothing without a name
+				L := t.Layers[r.Intn(len(t.Layers))]
+				md := Obj{}
+				switch r.Intn(4) {
+				case 0:
+					md["generateName"] = "backup-"
+				case 1:
+					md["generateName"] = "backup-"
+					md["labels"] = Obj{"a": "b"}
+				case 2:
+					md["name"] = ""
+					md["generateName"] = "x-"
+				default:
+					md["namespace"] = "somewhere"
+					md["generateName"] = "y-"
+				}
+				L.ResF = append(L.ResF, "noname.yaml")
+				L.Docs["noname.yaml"] = []Obj{{"apiVersion": "batch/v1", "kind": "Job", "metadata": md, "spec": Obj{"template": Obj{"spec": Obj{"containers": []interface{}{Obj{"name": "c", "image": "i"}}}}}}}
+			}
 			if r.Intn(3) == 0 {
 				// documents that END in a block scalar with trailing line breaks (`|+`): the separator that follows must not eat them
 				L := t.Layers[r.Intn(len(t.Layers))]
